@@ -18,6 +18,8 @@ func runC09(c *Ctx) {
 	defer c09EveryRuleBlockParsed(c, "C09-R6")
 	defer pureClosure(c, "C09-R3", "match/ignore conditions keep no package-level state", "strictRegex, Match.IsMatch and Match.validate", "a regexp cached under its pattern text is shared by everything that compiles that text, anchored or not: whether a condition is fully anchored then depends on who compiled the pattern first", "internal/config.strictRegex", "internal/config.Match.IsMatch", "internal/config.Match.validate")
 	defer c09NoStateDefaultInIsMatch(c, "C09-R2")
+	defer c09CommandTravelsWithTheContext(c, "C09-R2")
+	defer c09BlocksAreNotEditedInPlace(c, "C09-R4")
 	p := c.P
 	c.Rule("C09-R1", "duration operator tables", 12)
 	c.Rule("C09-R2", "state vocabulary, per-command default, defaultRuleMatch", 16)
@@ -795,4 +797,203 @@ func c09EntryLabelsSemantics(c *Ctx, el *FuncInfo) {
 		c.Check(gotItems == wantItems && gotKey == wantKey, R, key, el.Decl.Pos(), "items="+wantItems,
 			"Entry.Labels() hands back items `"+gotItems+"` under key `"+gotKey+"`, documented: items `"+wantItems+"` under key `"+wantKey+"` (G = group labels, A/R = the rule's own; merge(G,x) = rule labels over group labels): `label` conditions of match/ignore blocks and every check that reads labels then see the wrong label set")
 	}
+}
+
+// c09CommandTravelsWithTheContext: match/ignore blocks with `command = …`, and
+// the per-command state default, read the running command from the context.
+// Every context handed to checkRules / problemCollector.scan in cmd/pint
+// therefore descends — through context.With* wrappers — from the function's own
+// context parameter or from a context.WithValue(…, config.CommandKey, …); one
+// that starts again from context.Background() has lost the command: during
+// `pint watch` no `command = "watch"` block matches any more.
+func c09CommandTravelsWithTheContext(c *Ctx, R string) {
+	cmd := c.P.Pkg("cmd/pint")
+	if cmd == nil {
+		return
+	}
+	info := cmd.TypesInfo
+	n := 0
+	var carries func(fi *FuncInfo, e ast.Expr, depth int) (bool, string)
+	carries = func(fi *FuncInfo, e ast.Expr, depth int) (bool, string) {
+		e = ast.Unparen(e)
+		if depth > 5 {
+			return false, "too deep"
+		}
+		switch x := e.(type) {
+		case *ast.Ident:
+			o := info.Uses[x]
+			if o == nil {
+				o = info.Defs[x]
+			}
+			sig := fi.Obj.Type().(*types.Signature)
+			for i := 0; i < sig.Params().Len(); i++ {
+				if types.Object(sig.Params().At(i)) == o {
+					return true, ""
+				}
+			}
+			// a closure parameter or a local: look at its definitions
+			defs := allDefs(info, fi.Decl.Body, x)
+			if len(defs) == 0 {
+				// parameter of a function literal: the literal is given the context by its caller (cli action, goroutine)
+				return true, ""
+			}
+			for _, d := range defs {
+				if ok, why := carries(fi, d, depth+1); !ok {
+					return false, why
+				}
+			}
+			return true, ""
+		case *ast.CallExpr:
+			fn := Callee(info, x)
+			if fn == nil || fn.Pkg() == nil {
+				return false, "context produced by `" + exprStr(x.Fun) + "`"
+			}
+			if fn.Pkg().Path() == "context" {
+				switch fn.Name() {
+				case "Background", "TODO":
+					return false, "it starts from context." + fn.Name() + "()"
+				case "WithValue":
+					if len(x.Args) == 3 {
+						if k := constObj(info, x.Args[1]); k != nil && k.Name() == "CommandKey" {
+							return true, ""
+						}
+						if sel, isSel := ast.Unparen(x.Args[1]).(*ast.SelectorExpr); isSel && sel.Sel.Name == "CommandKey" {
+							return true, ""
+						}
+					}
+					return carries(fi, x.Args[0], depth+1)
+				default:
+					if len(x.Args) >= 1 {
+						return carries(fi, x.Args[0], depth+1)
+					}
+				}
+			}
+			return false, "context produced by `" + exprStr(x.Fun) + "`"
+		}
+		return false, "context expression `" + exprStr(e) + "`"
+	}
+	for _, fi := range c.P.AllFuncs() {
+		if fi.Pkg != cmd || fi.Decl.Body == nil || c.P.IsTestFile(fi.Decl.Pos()) {
+			continue
+		}
+		seq := 0
+		ast.Inspect(fi.Decl.Body, func(nd ast.Node) bool {
+			call, ok := nd.(*ast.CallExpr)
+			if !ok || len(call.Args) == 0 {
+				return true
+			}
+			if !isCallTo(info, call, "cmd/pint.checkRules") && !isCallTo(info, call, "cmd/pint.problemCollector.scan") {
+				return true
+			}
+			if t := info.TypeOf(call.Args[0]); t == nil || t.String() != "context.Context" {
+				return true
+			}
+			n++
+			seq++
+			ok2, why := carries(fi, call.Args[0], 0)
+			c.Check(ok2, R, strings.TrimPrefix(fi.Name, "cmd/pint.")+":the scan context carries the command#"+itoa(seq), call.Pos(), "derived from the caller's context",
+				"the context given to the scan does not descend from the one that holds the command ("+why+"): commandFromContext() then returns the empty command, `match { command = … }` / `ignore { command = … }` blocks never apply and the state default is the wrong command's")
+			return true
+		})
+	}
+	c.Check(n >= 3, R, "scan entry points with a context enumerated", token.NoPos, itoa(n), "fewer than 3 calls of checkRules / scan")
+}
+
+// c09BlocksAreNotEditedInPlace: the match/ignore blocks of a rule{} live in the
+// loaded configuration and are shared by every entry and every check that
+// consults them. Nothing in internal/config edits a list of them in place
+// (slices.Delete/DeleteFunc/Sort…/Reverse/Compact…/Replace, sort.Slice…, or a
+// store into an element of a list it was handed): the first evaluation would
+// change what every later one sees — a filtered-out block leaves a zero
+// Match{} at the tail, and an empty ignore block is satisfied by every rule.
+func c09BlocksAreNotEditedInPlace(c *Ctx, R string) {
+	cfg := c.P.Pkg("internal/config")
+	if cfg == nil {
+		return
+	}
+	info := cfg.TypesInfo
+	isBlockList := func(t types.Type) bool {
+		sl, ok := t.Underlying().(*types.Slice)
+		if !ok {
+			return false
+		}
+		q := typeQName(sl.Elem())
+		return q == "internal/config.Match" || q == "internal/config.Rule"
+	}
+	n, bad := 0, ""
+	badPos := token.NoPos
+	for _, fi := range c.P.AllFuncs() {
+		if fi.Pkg != cfg || fi.Decl.Body == nil || c.P.IsTestFile(fi.Decl.Pos()) {
+			continue
+		}
+		sig := fi.Obj.Type().(*types.Signature)
+		params := map[types.Object]bool{}
+		for i := 0; i < sig.Params().Len(); i++ {
+			params[sig.Params().At(i)] = true
+		}
+		if sig.Recv() != nil {
+			params[sig.Recv()] = true
+		}
+		ast.Inspect(fi.Decl.Body, func(nd ast.Node) bool {
+			switch x := nd.(type) {
+			case *ast.CallExpr:
+				fn := Callee(info, x)
+				if fn == nil || fn.Pkg() == nil || len(x.Args) == 0 {
+					return true
+				}
+				t := info.TypeOf(x.Args[0])
+				if t == nil || !isBlockList(t) {
+					return true
+				}
+				n++
+				inPlace := false
+				switch fn.Pkg().Path() {
+				case "slices":
+					switch fn.Name() {
+					case "Delete", "DeleteFunc", "Insert", "Replace", "Sort", "SortFunc", "SortStableFunc", "Reverse", "Compact", "CompactFunc":
+						inPlace = true
+					}
+				case "sort":
+					inPlace = true
+				}
+				if fid, isID := x.Fun.(*ast.Ident); isID && fid.Name == "clear" {
+					inPlace = true
+				}
+				// working on a fresh copy is fine: slices.DeleteFunc(slices.Clone(ms), …)
+				if inner, isCall := ast.Unparen(x.Args[0]).(*ast.CallExpr); isCall {
+					if f2 := Callee(info, inner); f2 != nil && f2.Pkg() != nil && f2.Pkg().Path() == "slices" && f2.Name() == "Clone" {
+						inPlace = false
+					}
+				}
+				if inPlace {
+					bad, badPos = "`"+exprStr(x)+"` in "+shortFuncName(fi.Name), x.Pos()
+				}
+			case *ast.AssignStmt:
+				for _, l := range x.Lhs {
+					ix, isIx := ast.Unparen(l).(*ast.IndexExpr)
+					if !isIx {
+						// field of an element: ms[i].State = …
+						if sel, isSel := ast.Unparen(l).(*ast.SelectorExpr); isSel {
+							ix, isIx = ast.Unparen(sel.X).(*ast.IndexExpr)
+						}
+					}
+					if !isIx {
+						continue
+					}
+					t := info.TypeOf(ix.X)
+					if t == nil || !isBlockList(t) {
+						continue
+					}
+					n++
+					root, _, ok := accessPath(info, ix.X)
+					if ok && root != nil && params[root] {
+						bad, badPos = "`"+exprStr(l)+" = …` in "+shortFuncName(fi.Name), x.Pos()
+					}
+				}
+			}
+			return true
+		})
+	}
+	c.Check(bad == "", R, "match/ignore block lists are never edited in place", badPos, itoa(n)+" uses inspected",
+		bad+" rewrites a list of match/ignore blocks (or rule{} blocks) that the loaded configuration still refers to: after the first entry was evaluated every later entry and check sees a different configuration")
 }
